@@ -39,7 +39,7 @@ TASK: produce THREE INDEPENDENT changes (numbered 1, 2, 3), each of which alone 
 4. Then append a demonstration `#[cfg(test)] mod demo_{low}_k {{ use super::*; ... }}` at the END of src/bin/mstsc-rs.rs (the binary's functions are private) and run it with `cargo test --offline --features mstsc-rs --bin mstsc-rs demo_{low}_k` (add RUSTFLAGS if you use the hooks, and say so). It must FAIL with change k and PASS without it: to check the latter, `git -C {wt} apply -R /tmp/{pid}{n}-change-k.patch`, run, then re-apply. Save the demo module alone as a patch against the CLEAN tree: with the change reversed, `git -C {wt} diff -- src/bin/mstsc-rs.rs > /tmp/{pid}{n}-demo-k.patch`.
 When all three are done: `git -C {wt} checkout -- src` and `rm -rf {wt}/target`.
 
-STYLE for this round: go where the earlier ideas did not. First list for yourself the functions and branches of the relevant files that the ideas already used (see below) do NOT touch, and place your three changes there: an error path or early return, a rarely taken branch (an optional field present, an unusual but legal flag, a second or later occurrence of something that usually happens once), a value computed in one module and consumed in another (one side changed, the other not), state that is set in one call and read in a later one, a loop bound or accumulator that only matters for the second or the last element, a default that is only used when a builder call is left out. Changes may be classic slips or small refactors, but each must live in a function none of the listed ideas modifies, and they must still need a specific input or sequence to show.
+STYLE for this round: think like a protocol tester rather than a code reader. Pick three DIFFERENT legal-but-unusual behaviours of the peer or of the API user that the specifications (MS-RDPBCGR, T.125/T.124, MS-NLMP, MS-CSSP, X.690/X.691) or the public API allow — an optional field present or absent, a legal flag combination nobody sets, a value at the edge of its legal range, a size at a power of two or a multiple of an internal block size, an object used a second time, two operations in the opposite order, an empty or a maximal collection, a message arriving earlier or later than usual — and make the client handle each one wrongly by a small plausible change. The ideas listed below show what has been tried; do not vary them: find behaviours none of them relies on. At least one of the three must need a SEQUENCE of two or more operations or messages (not one input) to show.
 
 These ideas have ALREADY been used for this property — do something different: {' | '.join(used) if used else '(none)'}
 {"One weakness was known and has been repaired already (the thread used to poll the raw socket while a decrypted PDU was buffered in the TLS layer; has_pending_data() now covers it) - re-breaking exactly that by deleting the has_pending_data() call is too obvious; be subtler." if pid == "C20" else ""}
